@@ -260,7 +260,83 @@ def run_valid(case):
     return res
 
 
-KINDS = {"invalid": run_invalid, "valid": run_valid}
+# option -> other scalar spellings of a valid value (the documented types are int / float / bool)
+SPELLINGS = {
+    "n_dim": ["np.int64", "np.int32", "float", "0-d int array"], "n_particles": ["np.int64", "np.int32", "float", "np.uint8"],
+    "ess_ratio": ["int", "np.float32", "np.int64", "0-d float array"], "volume_variation": ["np.float32", "np.float64", "int"],
+    "n_steps": ["np.int64", "float", "np.int32"], "n_max_steps": ["np.int64", "float"], "cluster_every": ["np.int64", "np.int32", "float"],
+    "n_max_clusters": ["np.int64", "float"], "split_threshold": ["int", "np.float32", "np.int64"], "random_state": ["np.int64", "np.int32", "np.uint8"],
+    "pool": ["np.int64", "np.int32"], "clustering": ["np.bool_", "bool-as-int"], "normalize": ["np.bool_", "bool-as-int"], "vectorize": ["np.bool_", "bool-as-int"],
+    "n_total": ["np.int64", "float", "np.int32"], "save_every": ["np.int64", "np.int32"],
+}
+SPELL_BASES = [
+    dict(n_particles=16, d=2, n_total=48, ess_ratio=2.0, vv=None, n_steps=2, n_max_steps=20, cluster_every=2, n_max_clusters=3, split_threshold=1.0, random_state=7, clustering=True, target="bimodal"),
+    dict(n_particles=12, d=1, n_total=36, ess_ratio=1.0, vv=1.0, n_steps=3, n_max_steps=30, cluster_every=1, n_max_clusters=2, split_threshold=2.0, random_state=3, clustering=True, eval="vec", target="gauss"),
+    dict(n_particles=16, d=2, n_total=48, ess_ratio=2.0, vv=None, n_steps=2, n_max_steps=20, cluster_every=1, n_max_clusters=4, split_threshold=1.0, random_state=5, clustering=False, eval="poolint", pool_n=2, sample="rwm"),
+]
+
+
+def run_spell(case):
+    """One option of a valid base configuration given as another scalar type carrying the SAME value.  Either the constructor rejects it up
+    front (before any likelihood call, with ValueError/TypeError), or the configuration is valid and must run to completion, satisfy the
+    run post-conditions and give the same run as the plain spelling."""
+    from mc.pipeline import digest, snap
+
+    res = Res()
+    base = dict(SPELL_BASES[case["base_cfg"]])
+    fs = None
+    if case["option"] == "save_every":
+        base.update(save_every=2, output_dir="/memfs/out")
+    opt, sp = case["option"], case["spelling"]
+    runs = []
+    for spell in ({}, {opt: sp}):
+        cfg = dict(base, spell=spell)
+        fs = MemFS() if "save_every" in base else None
+        try:
+            p = Probe(cfg, base=case["base"], fs=fs)
+        except (ValueError, TypeError) as e:
+            runs.append(("rejected", e, None))
+            continue
+        except Exception as e:
+            runs.append(("construct-crash", e, None))
+            continue
+        n0 = p.ll.n
+        p.run()
+        runs.append(("ran", p, n0))
+    res.evals += 2
+    res.states += 1
+    res.trans += 1
+    plain, spelled = runs
+    cc = dict(case)
+    tag = f"{opt} given as {sp} (same value as in the valid configuration {base})"
+    res.outcome((case["base_cfg"], opt, sp, spelled[0]), nontrivial=True)
+    res.bump(f"spelling:{spelled[0]}")
+    if plain[0] != "ran" or plain[1].exc is not None or terminal_errors(plain[1]):
+        res.bump("plain_spelling_fails")  # owned by the covering-array phase
+        return res
+    if spelled[0] == "rejected":
+        return res  # invalid by the library's own definition of the option type: rejected up front
+    if spelled[0] == "construct-crash":
+        res.violate(f"spelling:{opt}:{sp}:construct:{type(spelled[1]).__name__}", f"{tag}: the constructor neither accepted nor cleanly rejected it: {spelled[1]!r}", cc)
+        return res
+    q = spelled[1]
+    if q.exc is not None:
+        res.violate(f"spelling:{opt}:{sp}:run:{type(q.exc).__name__}", f"{tag}: accepted by the constructor, then run() raised {q.exc!r}", cc)
+        return res
+    errs = terminal_errors(q)
+    if errs:
+        res.violate(f"spelling:{opt}:{sp}:post:{errs[0][0]}", f"{tag}: accepted, but the run post-conditions fail: {errs[0][1]}", cc)
+        return res
+    a, b = plain[1], q
+    ha, hb = a.state._history, b.state._history
+    same = all(len(ha[k]) == len(hb[k]) and all(np.array_equal(np.asarray(x, dtype=float), np.asarray(y, dtype=float)) for x, y in zip(ha[k], hb[k])) for k in ("u", "x", "logl", "beta", "logz"))
+    if not same:  # values, not storage types: an int-typed option may legitimately leave int-typed bookkeeping entries
+        res.violate(f"spelling:{opt}:{sp}:different-run", f"{tag}: accepted, but the run differs from the run with the plain spelling ({a.iters} vs {b.iters} iterations, "
+                    f"logZ {a.state.get_current('logz')!r} vs {b.state.get_current('logz')!r})", cc)
+    return res
+
+
+KINDS = {"spell": run_spell, "invalid": run_invalid, "valid": run_valid}
 
 
 def plan(ctx):
@@ -275,3 +351,9 @@ def plan(ctx):
     cases = [{"kind": "valid", "row": r, "base": ctx.seed + 100 * b} for r in rows for b in range(2)]
     agg = ctx.explore("valid-covering-array", cases)
     ctx.res.sample({"valid_row": rows[0]})
+    opt_key = {"n_dim": "d", "volume_variation": "vv", "pool": "pool_n"}
+    sp = [{"kind": "spell", "base_cfg": b, "option": o, "spelling": s_, "base": ctx.seed} for b in range(len(SPELL_BASES)) for o, ss in SPELLINGS.items() for s_ in ss
+          if (o in ("n_total", "save_every", "n_dim", "vectorize", "normalize") or SPELL_BASES[b].get(opt_key.get(o, o)) is not None)
+          and not (o == "pool" and SPELL_BASES[b].get("eval") != "poolint")]
+    ctx.bounds["option_spellings"] = {k: v for k, v in SPELLINGS.items()}
+    ctx.explore("option-spellings", sp)
